@@ -3,6 +3,7 @@ package main
 import (
 	"fmt"
 	"go/ast"
+	"go/constant"
 	"go/token"
 	"go/types"
 	"strings"
@@ -19,7 +20,7 @@ func init() {
 			"R2 the default chain (defaults.chain) equals gen.go's middlewareList, each entry constructs the handler of its own name, accesslist precedes every handler except {recovery, metrics, dnstap}, and those three reach no write/query before Next; " +
 			"R3 ClientOnly() is the constant true for the eight client-side handlers, autoWire feeds SetQueryer/SetPrefetchQueryer from SubPipeline(skip…) with skip built behind ClientOnly()=true, and the policy handlers reach their policy decision only across Internal()=false; " +
 			"R4 ipset.New adds an entry only on the parse-success edge; Contains unmaps 4-in-6 before choosing the family; add masks before bounds; " +
-			"R5 the view loop never iterates again after a ContainsIP hit; R6 ingredients of the stabbing query: sort before fold, maxHi is a running max-fold of hi, Contains compares against maxHi.",
+			"R4b the open default is installed only when the configured list is empty; R5 the view loop never iterates again after a ContainsIP hit; R6 ingredients of the stabbing query: sort before fold, maxHi is a running max-fold of hi, Contains compares against maxHi.",
 		NotDecided: []string{
 			"exactness of Contains/bounds/ones range arithmetic for every (list, address) — value-level",
 			"RemoteIP derivation on every transport",
@@ -269,6 +270,36 @@ func runC17(c *Ctx) {
 		}
 	}
 	c.Floor("C17-R4", 5)
+
+	// R4b the open default is installed only for an empty configured list
+	c.Doc("C17-R4b", "accesslist.New: an all-addresses prefix constant (\"…/0\") enters the allowed set only on the edge where the configured list itself is empty (len(cfg.AccessList)==0, before parsing) — a list whose entries all fail to parse must stay closed")
+	if fn := c.fn("C17-R4b", "middleware/accesslist.New"); fn != nil {
+		al := c.field("C17-R4b", "config.Config.AccessList")
+		isOpenConst := func(v ssa.Value) bool {
+			k, ok := v.(*ssa.Const)
+			if !ok || k.Value == nil || k.Value.Kind() != constant.String {
+				return false
+			}
+			s := constant.StringVal(k.Value)
+			return strings.HasSuffix(s, "/0")
+		}
+		target := func(in ssa.Instruction) bool {
+			var ops []*ssa.Value
+			for _, op := range in.Operands(ops) {
+				if op != nil && *op != nil && isOpenConst(*op) {
+					return true
+				}
+			}
+			return false
+		}
+		if al != nil {
+			c.MustCross("C17-R4b", fn, "open default (…/0) installed", target,
+				OnCmp("len(cfg.AccessList)==0", func(e *Expr) bool {
+					e = strip(e)
+					return e != nil && e.K == ECall && e.Method == "builtin.len" && len(e.Args) == 1 && FieldIs(al)(e.Args[0])
+				}, token.EQL, IsConstInt(0), true))
+		}
+	}
 
 	// R5 first matching view
 	c.Doc("C17-R5", "views.(*Views).ServeDNS: after a ContainsIP hit the view loop is never re-entered (return or break)")
